@@ -453,3 +453,130 @@ def r_angle_range(cx):
               "%s returns input + 2 pi k within [%.4f, %.4f] for either sign of the remainder" % (name, lo, hi)
               if bad is None else "%s: %s" % (name, bad), where)
     cx.count("R-ANGLE-RANGE", "functions", n)
+
+
+# ---------------------------------------------------------------------------------------------------------------------
+# R-LAT-SHAPE (C06): every auxiliary latitude has a shape that is odd, fixes 0 and the poles
+
+def _is_num(t, v):
+    x = _fnum(t)
+    return x is not None and x == v
+
+
+def _series_shape(t, x, fidx):
+    """t == x + fourier::sin(2*x, coeffs.<fidx>)  (either operand order); returns True/False"""
+    if not (t[0] == "bin" and t[1] == "Add"):
+        return False
+    for a, b in ((t[2], t[3]), (t[3], t[2])):
+        if a != x:
+            continue
+        b = mir.strip_refs(b)
+        if b[0] == "call" and isinstance(b[1], str) and b[1].endswith("fourier::sin") and len(b[2]) == 2:
+            arg, co = b[2]
+            two_x = arg[0] == "bin" and arg[1] == "Mul" and ((_is_num(arg[2], 2.0) and arg[3] == x) or
+                                                            (_is_num(arg[3], 2.0) and arg[2] == x))
+            co = mir.strip_refs(co)
+            while co[0] == "cast":
+                co = mir.strip_refs(co[2])
+            right_set = co[0] == "proj" and co[2] == ("f", fidx)
+            return two_x and right_set
+    return False
+
+
+@rule("R-LAT-SHAPE", ["C06"])
+def r_lat_shape(cx):
+    """Each conversion between the geographic latitude and an auxiliary latitude (Latitudes::latitude_*) has one of
+    the shapes that make it odd, zero at the equator and pi/2 at the pole by construction:
+      series:  phi + S(2 phi)  with S = math::fourier::sin, a sine series in *even* multiples of phi (vanishing at 0 and
+               at +-pi/2), taken with the forward coefficient set for geographic -> auxiliary and with the inverse set
+               for the way back; the rectifying latitude additionally scales by / divides by its constant factor;
+      closed:  atan(c * tan phi), atan(tan phi / c) or atan2(tan phi, c) with c free of phi;
+      isometric pair: gudermannian^-1(phi) - e atanh(e sin phi) and atan(sinhpsi_to_tanphi(sinh psi, e)) (odd; the
+               isometric latitude is unbounded at the poles).
+    Oddness of fourier::sin, the gudermannian and sinhpsi_to_tanphi in their first argument is a stated summary."""
+    import elems as E
+    n = 0
+    x = ("arg", 2)
+    for name in sorted(cx.f.lib["fns"]):
+        short = name.rsplit("::", 1)[-1]
+        if not name.startswith("ellipsoid::latitudes::Latitudes::latitude_") or "coefficients" in short:
+            continue
+        f = cx.f.fn(name)
+        rt = E.return_term(f)
+        n += 1
+        ok = False
+        what = "unrecognised"
+        if rt is not None:
+            to_aux = short.startswith("latitude_geographic_to_")
+            fidx = 0 if to_aux else 1
+            t = rt
+            # series, possibly scaled (rectifying): k * (x + S(2x))  or  with x := arg / k
+            if _series_shape(t, x, fidx):
+                ok, what = True, "series"
+            elif t[0] == "bin" and t[1] == "Mul" and any(_series_shape(s, x, fidx) for s in (t[2], t[3])) and \
+                    not any(_mentions_term2(s, x) for s in (t[2], t[3]) if not _series_shape(s, x, fidx)):
+                ok, what = True, "scaled series"
+            elif t[0] == "bin" and t[1] == "Add":
+                # (x / k) + S(2 (x / k))
+                for a in (t[2], t[3]):
+                    if a[0] == "bin" and a[1] == "Div" and a[2] == x and not _mentions_term2(a[3], x) and _series_shape(t, a, fidx):
+                        ok, what = True, "series in the scaled argument"
+            if not ok and t[0] == "call" and isinstance(t[1], str) and t[1].endswith("::atan") and len(t[2]) == 1:
+                u = t[2][0]
+                if u[0] == "bin" and u[1] in ("Mul", "Div"):
+                    tans = [s for s in (u[2], u[3]) if s[0] == "call" and isinstance(s[1], str) and s[1].endswith("::tan") and s[2] and s[2][0] == x]
+                    others = [s for s in (u[2], u[3]) if s not in tans]
+                    if len(tans) == 1 and len(others) == 1 and not _mentions_term2(others[0], x) and \
+                            (u[1] == "Mul" or u[2] == tans[0]):
+                        ok, what = True, "atan(c tan phi)"
+                if u[0] == "call" and isinstance(u[1], str) and u[1].endswith("sinhpsi_to_tanphi") and u[2] and \
+                        u[2][0][0] == "call" and u[2][0][1].endswith("::sinh") and u[2][0][2][0] == x:
+                    ok, what = True, "isometric inverse"
+            if not ok and t[0] == "call" and isinstance(t[1], str) and t[1].endswith("::atan2") and len(t[2]) == 2:
+                y, xx = t[2]
+                if y[0] == "call" and y[1].endswith("::tan") and y[2][0] == x and not _mentions_term2(xx, x):
+                    ok, what = True, "atan2(tan phi, c)"
+            if not ok and t[0] == "bin" and t[1] == "Sub" and short == "latitude_geographic_to_isometric":
+                a, b = t[2], t[3]
+                g = a[0] == "call" and isinstance(a[1], str) and a[1].endswith("gudermannian::inv") and a[2][0] == x
+                sins = []
+
+                def v(y):
+                    if y[0] == "call" and isinstance(y[1], str) and y[1].endswith("::sin") and y[2] and y[2][0] == x:
+                        sins.append(y)
+                    return True
+                mir.walk(b, v)
+                at = [1 for y in [b] if _has_call(b, "::atanh")]
+                if g and sins and at:
+                    ok, what = True, "isometric"
+        cx.ob("R-LAT-SHAPE", short, ok,
+              "%s has the shape `%s`: odd, and (except for the isometric pair) 0 at the equator and pi/2 at the pole" % (short, what)
+              if ok else
+              "%s does not have one of the shapes that make an auxiliary latitude odd and fix the equator and the poles "
+              "(phi + S(2 phi) with the %s coefficient set, atan(c tan phi), the isometric pair): %s" % (
+                  short, "forward" if short.startswith("latitude_geographic_to_") else "inverse",
+                  mir.show(rt)[:90] if rt is not None else "no single returned expression"), cx.where(f.d["span"]))
+    cx.count("R-LAT-SHAPE", "conversions", n)
+
+
+def _mentions_term2(t, needle):
+    hit = []
+
+    def v(x):
+        if x == needle:
+            hit.append(1)
+            return False
+        return not hit
+    mir.walk(t, v)
+    return bool(hit)
+
+
+def _has_call(t, suffix):
+    hit = []
+
+    def v(x):
+        if x[0] == "call" and isinstance(x[1], str) and x[1].endswith(suffix):
+            hit.append(1)
+        return True
+    mir.walk(t, v)
+    return bool(hit)
